@@ -95,6 +95,10 @@ fn gen_expr(ch: &mut Choices, g: &Gen, depth: u32, allow_branches: bool) -> Vec<
             _ => WOp::Constu(ch.below(40) as u64),
         });
     }
+    // an expression started from raw bytecode (`Expression::raw`) and then extended through the builder
+    if ch.chance(24) {
+        v[0] = WOp::Raw(SIMPLE_OPS[ch.below(SIMPLE_OPS.len())]);
+    }
     // resolve branch targets: any operation index, or the end
     let len = v.len();
     for i in 0..len {
